@@ -21,6 +21,12 @@ pub fn op_to_json(op: Op) -> Value {
         Log(b) => json!({"name": "Log", "f": b}),
         Powi(n) => json!({"name": "Powi", "i": n}),
         Powf(p) => json!({"name": "Powf", "f": p, "bits": format!("{:016x}", p.to_bits())}),
+        Sum(k) => json!({"name": "Sum", "i": k}),
+        Product(k) => json!({"name": "Product", "i": k}),
+        AddAF(s) => json!({"name": "AddAF", "f": s}),
+        SubAF(s) => json!({"name": "SubAF", "f": s}),
+        MulAF(s) => json!({"name": "MulAF", "f": s}),
+        DivAF(s) => json!({"name": "DivAF", "f": s}),
         AddF(s) => json!({"name": "AddF", "f": s}),
         SubF(s) => json!({"name": "SubF", "f": s}),
         MulF(s) => json!({"name": "MulF", "f": s}),
@@ -43,6 +49,12 @@ pub fn op_from_json(v: &Value) -> Op {
         "Log" => Log(f()),
         "Powi" => Powi(v["i"].as_i64().unwrap() as i32),
         "Powf" => Powf(f()),
+        "Sum" => Sum(v["i"].as_u64().unwrap() as usize),
+        "Product" => Product(v["i"].as_u64().unwrap() as usize),
+        "AddAF" => AddAF(f()),
+        "SubAF" => SubAF(f()),
+        "MulAF" => MulAF(f()),
+        "DivAF" => DivAF(f()),
         "AddF" => AddF(f()),
         "SubF" => SubF(f()),
         "MulF" => MulF(f()),
@@ -62,7 +74,8 @@ pub const ALL_SIMPLE_OPS: &[Op] = &[
     Op::Recip, Op::Sqrt, Op::Cbrt, Op::Exp, Op::Exp2, Op::ExpM1, Op::Ln, Op::Log2, Op::Log10, Op::Ln1p, Op::Sin, Op::Cos,
     Op::SinCosS, Op::SinCosC, Op::Tan, Op::Asin, Op::Acos, Op::Atan, Op::Sinh, Op::Cosh, Op::Tanh, Op::Asinh, Op::Acosh,
     Op::Atanh, Op::SphJ0, Op::SphJ1, Op::SphJ2, Op::Abs, Op::Signum, Op::Neg, Op::Inv, Op::Add, Op::Sub, Op::Mul, Op::Div,
-    Op::Atan2, Op::AbsSub, Op::Powd, Op::MulAdd, Op::BesselJ0, Op::BesselJ1, Op::BesselJ2,
+    Op::Atan2, Op::AbsSub, Op::Powd, Op::MulAdd, Op::BesselJ0, Op::BesselJ1, Op::BesselJ2, Op::AddA, Op::SubA, Op::MulA,
+    Op::DivA, Op::AddRef, Op::SubRef, Op::MulRef, Op::DivRef,
 ];
 
 pub fn parts_to_json<F: Flt>(p: &Parts<F>) -> Value {
